@@ -204,6 +204,16 @@ func (f *DB) Reload(path string, validationKey []byte, reloadTimeout time.Durati
 			return f, err
 		}
 
+		if newDBI == f.dbi {
+			// same backend (RocksDB caught up with its primary): it stays in service
+			// whatever the validation says, so it must not be destroyed on failure
+			if err = f.ValidateDbKey(validationKey); err != nil {
+				glog.Errorf("Key validation failed after reloading the same DBI")
+				return f, err
+			}
+			return f, nil
+		}
+
 		// Validate newDBI
 		newDB := &DB{dbi: newDBI}
 		err = newDB.validateDbKeyOrDestroy(validationKey)
